@@ -269,11 +269,18 @@ def check_workbook(sub, case):
         if case.get("beyond"):
             numbers.append(count + 1)
         for number in numbers:
-            for via in ("direct", "cid"):
-                evals += 1
+            for via in ("direct", "cid", "cid-narrow"):
                 exists = number <= count
                 width = boxes[number - 1][1] if exists else 1
-                outcome, payload = _read(path, number, via, width)
+                fields = width
+                if via == "cid-narrow":
+                    # a CID with one field less than the sheet is wide: every row has one item too many, whatever
+                    # that item holds
+                    if not exists or width < 2:
+                        continue
+                    fields = width - 1
+                evals += 1
+                outcome, payload = _read(path, number, "direct" if via == "direct" else "cid", fields)
                 where = "sheet %d of %d via %s" % (number, count, via)
                 failing = dict(case, failing={"sheet": number, "via": via})
                 if outcome == "exception":
@@ -292,7 +299,7 @@ def check_workbook(sub, case):
                     sub.fail("C16|exception|DataFormatError|read", failing,
                              "reading %s of a well-formed workbook failed: %s" % (where, payload))
                     continue
-                cid_width = max(width, 1) if via == "cid" else None
+                cid_width = None if via == "direct" else max(fields, 1)
                 problems = judge_table(sheets[number - 1], payload, cid_width)
                 if not problems:
                     continue
